@@ -205,9 +205,13 @@ def _check_diagrams_once(case, ctx, user_arrays, pristine, pass_no):
         else:
             ctx.require(leg is None, "legend_unwanted", "legend drawn although legend=False")
         diag_lines = [l for l in lines if l.get_linestyle() == "--" and l.get_label() != r"$\infty$"]
+        is_xy = [l for l in lines if len(l.get_xdata()) >= 2 and np.allclose(l.get_xdata(), l.get_ydata()) and l.get_xdata()[0] != l.get_xdata()[-1]]
         if o["diagonal"] and not o["lifetime"]:
             ok = any(np.allclose(l.get_xdata(), l.get_ydata()) for l in diag_lines)
             ctx.require(ok, "diagonal_missing", "diagonal requested but no x=y line drawn")
+        else:
+            # diagonal=False, or lifetime mode (where the diagonal of the birth-death plane has no meaning and is documented not to be drawn)
+            ctx.require(not is_xy, "diagonal_unwanted", lambda: "an x=y line is drawn although diagonal=%r, lifetime=%r" % (o["diagonal"], o["lifetime"]))
     finally:
         plt.close("all")
 
